@@ -51,6 +51,11 @@ def mutate(rng, data):
     return bytes(b)
 
 
+def diag_len(se):
+    """bytes of stderr that are not the progress line 'do_source_file: Parsing: <file> as language <L>' (printed before any work)"""
+    return sum(len(l) + 1 for l in se.split(b"\n") if l.strip() and not (l.startswith(b"do_source_file") and b"Parsing:" in l))
+
+
 def _job(a):
     unc, tmp, i, data, lang, cfgtext, quiet, use_asan = a
     src = os.path.join(tmp, "f%d%s" % (i, LANG_EXT[lang]))
@@ -59,7 +64,7 @@ def _job(a):
     obs.write(cfg, cfgtext)
     env = {"ASAN_OPTIONS": "detect_leaks=0:abort_on_error=1:halt_on_error=1", "UBSAN_OPTIONS": "halt_on_error=1:print_stacktrace=0"} if use_asan else None
     rc, so, se = sh([unc, "-c", cfg] + (["-q"] if quiet else []) + ["-l", lang, "-f", src], cwd=tmp, timeout=TIMEOUT * (3 if use_asan else 1), env=env)
-    ev = {"id": "run|%d" % i, "rc": rc if rc != -999 else 0, "timedout": rc == -999, "outlen": len(so), "errlen": len(se), "quiet": quiet,
+    ev = {"id": "run|%d" % i, "rc": rc if rc != -999 else 0, "timedout": rc == -999, "outlen": len(so), "errlen": diag_len(se), "quiet": quiet,
           "san": (b"AddressSanitizer" in se or b"runtime error:" in se), "lang": lang}
     info = {"last_pass": ""}
     if rc == -999:
